@@ -424,6 +424,12 @@ def torch_trace(n=4, rank=0, seed=0):
                    "dur": 8.0 + rnd.randrange(4), "args": {"External id": ext, "correlation": corr, "device": 0, "stream": 7}})
         ev.append({"ph": "X", "cat": "gpu_memcpy", "name": "Memcpy (DtoH)", "pid": 0, "tid": 7, "ts": t + 24, "dur": 3.0,
                    "args": {"External id": ext, "correlation": corr, "device": 0, "stream": 7, "bytes": 4096}})
+        # a stream with a STRING tid (as some profilers write them) on which two slices overlap partially: the
+        # overlap resolution works with hash(<tid string>) internally; what is exported must not show it
+        ev.append({"ph": "X", "cat": "kernel", "name": "aux_kernel_a", "pid": 0, "tid": "stream 11", "ts": t + 30, "dur": 10.0,
+                   "args": {"External id": ext, "correlation": 900 + 2 * k, "device": 0, "stream": 11}})
+        ev.append({"ph": "X", "cat": "kernel", "name": "aux_kernel_b", "pid": 0, "tid": "stream 11", "ts": t + 35, "dur": 10.0,
+                   "args": {"External id": ext, "correlation": 901 + 2 * k, "device": 0, "stream": 11}})
         t += 50.0
     return {"schemaVersion": 1, "deviceProperties": [{"id": 0, "name": "AIU"}], "distributedInfo": {"rank": rank},
             "traceEvents": ev}
@@ -529,8 +535,10 @@ def snapshot(d, base):
             with open(p) as fh:
                 try:
                     snap[suffix + ":traceEvents"] = json.dumps(json.load(fh)["traceEvents"])
-                except Exception as e:  # noqa: BLE001
-                    snap[suffix + ":traceEvents"] = f"unreadable: {e}"
+                except Exception:  # noqa: BLE001
+                    # not JSON: -f pddf writes the rendered DataFrame under the -o name - compare it as text
+                    with open(p, "rb") as fh2:
+                        snap[suffix + ":text"] = fh2.read().decode("latin1")
         elif suffix.endswith(".csv") or suffix.endswith(".txt"):
             with open(p, "rb") as fh:
                 snap[suffix] = fh.read().decode("latin1")
@@ -758,6 +766,15 @@ def run_e2e_case(ctx: Ctx, case, pool, verbose=False):
                             prc, perr = option_predecessor(popts, rng)
                         note = f"A({'same' if same else 'other'} scenario, options {popts}): rc={prc} {perr[:60]}"
                         ctx.count("e2e_predecessors_with_other_options", 1)
+                    elif arg == "complog":
+                        # a complete run that prints a kernel-category table (compiler log given) before the run under test
+                        pd_ = tempfile.mkdtemp(prefix="aiuverif_")
+                        try:
+                            ppaths, pargv = write_inputs(pd_, {"testdata": "flex+complog"})
+                            prc, perr = run_inproc(pd_, "pred", ppaths, pargv)
+                        finally:
+                            shutil.rmtree(pd_, ignore_errors=True)
+                        note = f"A(compiler log, table printed): rc={prc} {perr[:60]}"
                     elif arg == "A":
                         note = "A: " + completed_predecessor(rng)
                     elif arg in ("torch", "flex"):
@@ -879,6 +896,11 @@ def gen_e2e_cases(ctx: Ctx):
                "opts": [], "seed": rng.randint(0, 10 ** 6),
                "variants": ["seed:1", "seed:2", "seed:3", f"seed:{rng.randint(4, 10 ** 6)}", f"seed:{rng.randint(4, 10 ** 6) + 10 ** 6}", "I:2",
                             "inproc", "after:A", opt_variant(["--event_limit", '{"count": 3}']), "inproc-again"]}
+    # the DataFrame output (-f pddf) of a job, alone and after other jobs of the process
+    for k in range(ctx.n(2, 5)):
+        yield {"kind": "e2e", "scen": {"R": 2, "groups": 1, "kernels": rng.randint(1, 2), "seed": rng.randint(0, 10 ** 6)},
+               "opts": ["-f", "pddf"], "seed": rng.randint(0, 10 ** 6),
+               "variants": ["seed:1", "inproc", "after:complog", "after:A", "inproc-again"]}
     # two equally similar ideal-cycle tables: the tie must not be broken by anything salted
     for k in range(ctx.n(2, 6)):
         yield {"kind": "e2e", "scen": {"twin": 2 + k % 3, "seed": rng.randint(0, 10 ** 6)}, "opts": [], "seed": rng.randint(0, 10 ** 6),
